@@ -137,7 +137,7 @@ func c07Programs(tier string) []string {
 // extension functions applied to every kind of value (the extensions package's harness runs extensions.Init)
 var c07ExtNames = []string{"pow", "sprintf", "sin", "cos", "tan", "ln", "sqrt", "exp", "asin", "acos", "atan", "log10", "floor", "ceil", "trunc", "round", "atan2",
 	"type", "eval", "unjson", "format", "defun", "runes", "rune_len", "width", "split", "join", "trim", "trim_left", "trim_right",
-	"min", "max", "int", "load", "save"}
+	"min", "max", "int", "load", "save", "regexp", "regsub", "base64", "json", "eof", "image.new", "image.set", "image.set_ycbcr"}
 
 func c07ExtPrograms(tier string) []string {
 	kinds := []string{"a", "x", "p", "nil", `"ab"`, `""`, "[]", "[a,1]", "{}", `{"k":a}`, "func(y){y}", "-1", "0", `"%d %s %v"`, `"("`, `"1+"`, `"{\"k\":[1,2.5,null]}"`}
@@ -171,7 +171,12 @@ func c07ExtPrograms(tier string) []string {
 		`defun("f", ["u"], [quote(u+1)])`, `defun(a, x, p)`, `int(x)`, `int("0x1F")`, `int("9223372036854775808")`, `round(x)`, `trunc(x)`, `pow(x, y)`, `pow(a, b)`, `atan2(x, y)`,
 		`min()`, `max(a)`, `min(a, x, "s", nil, [a])`, `split("a,b", "")`, `join([a, x, nil], ",")`, `join(["a", ["b"]], a)`, `runes("a\xffb", p)`, `width("\xff\xfe")`,
 		`trim("ab", "")`, 
-		`load("../x")`, `save(a)`, `type(type)`, `type(quote(a))`)
+		`load("../x")`, `save(a)`, `type(type)`, `type(quote(a))`,
+		`regexp("a+", "baab")`, `regexp("a+", "baab", p)`, `regexp("(", "b")`, `regexp("(a)(b)?", "xab", true)`, `regsub("(a)(b)?", "xab", "$2$1")`, `regsub("a", "b")`, `regsub("[", "b", "c")`,
+		`base64("\xff\x00a")`, `base64("")`, `json({"k":[a,nil,p,x]})`, `json(func(q){q})`, `json({1:2,"a":{[1]:2}})`, `eof()`,
+		`image.new("i", a, b)`, `image.new("i", 4, 4); image.set("i", a, b, [1, 2, 3])`, `image.new("i", 4, 4); image.set("i", 1, 1, [a, b, 3, 4])`, `image.set("nope", 1, 1, [1, 2, 3])`,
+		`image.new("i", 4, 4); image.set("i", 1, 1, [1, 2])`, `image.new("i", 4, 4); image.set("i", 1, 1, ["a", 2, 3])`, `image.new("i", 4, 4); image.set("i", 1, 1, [])`, `image.new("i", 4, 4); image.set_ycbcr("i", a, 1, [a, b, 3])`,
+		`image.new("i", 2, 2); image.set_hsl("i", 0, 0, [x, 0.5, 0.5])`, `image.new("i", 2, 2); image.set_hsl("i", 0, 0, [1, 2])`)
 	return ps
 }
 
@@ -203,7 +208,7 @@ func init() {
 		Budget: map[string]time.Duration{"quick": 8 * time.Minute, "thorough": 60 * time.Minute},
 		Reach:  []string{"value", "language-level error", "resource guard"},
 		Bounds: map[string]interface{}{"skeletons": "every infix operator x every ordered pair of 14 operand kinds; every prefix/postfix operator, index, slice, dot, index-assignment, del, builtin (1 and 2 arguments), call, for, if, function/variadic/macro argument x every kind; plus a list of loop, recursion, macro and boundary programs (see engine/props_c07.go)",
-			"extensions": "35 extension functions (math, sprintf, eval, unjson, format, defun, type, string functions, min/max, int, load/save restricted) applied to 0 arguments, to each of 17 kinds of value, to half of the ordered pairs of 8 kinds (all pairs thorough), 5 of them to all triples of 5 kinds, plus ~50 boundary calls; a, b all int64, x, y all float64, p both booleans; strings concrete; math functions on symbolic floats are uninterpreted; not included (they need package state the executor does not initialise or the real clock / processes): rand, json, json_go, regexp, regsub, base64, time.*, sleep, read, exec, run, image.*",
+			"extensions": "43 extension functions (math, sprintf, eval, unjson, format, defun, type, string functions, min/max, int, load/save restricted, regexp, regsub, base64, json, eof, image.new/set/set_ycbcr; the regexp, base64 and json packages are executed from their SSA on concrete patterns) applied to 0 arguments, to each of 17 kinds of value, to half of the ordered pairs of 8 kinds (all pairs thorough), 5 of them to all triples of 5 kinds, plus ~50 boundary calls; a, b all int64, x, y all float64, p both booleans; strings concrete; math functions on symbolic floats are uninterpreted; not included (they need package state the executor does not initialise or the real clock / processes): rand, json_go (reflection), time.*, sleep, read, exec, run, image drawing/vector/png functions",
 			"values": "all int64 for a,b,c; all float64 for x,y; both booleans; all 2-byte strings for s",
 			"depth":  "MaxDepth 60; loops whose trip count is symbolic are explored up to the executor's value-enumeration limit (64) and reported as bound-exceeded beyond"},
 		Outside: []string{"programs deeper than one operator over the listed operand kinds", "byte-level mutations of the shipped examples"},
